@@ -706,6 +706,11 @@ def write_set_report():
             return e.id if isinstance(e, ast.Name) else None
 
         def scan_function(fn, cls):
+            for dec in fn.decorator_list:
+                # a memoising decorator keeps results (and the objects in them) alive between calls: shared state by construction
+                dn = ast.unparse(dec.func if isinstance(dec, ast.Call) else dec).lower()
+                if any(w in dn for w in ("cache", "memo", "singledispatch")):
+                    report.append((rel, fn.name, "memoised-function", ast.unparse(dec)))
             local = {a.arg for a in fn.args.args + fn.args.kwonlyargs} | ({fn.args.vararg.arg} if fn.args.vararg else set()) | ({fn.args.kwarg.arg} if fn.args.kwarg else set())
             for d in fn.args.defaults + fn.args.kw_defaults:
                 if isinstance(d, (ast.List, ast.Dict, ast.Set)) or (isinstance(d, ast.Call) and isinstance(d.func, ast.Name) and d.func.id in ("list", "dict", "set")):
@@ -748,10 +753,48 @@ def write_set_report():
                         report.append((rel, fn.name, "mutating-call-on-shared", ast.unparse(n.func)))
                     if r == "self" and cls in operate_classes and fn.name != "__init__":
                         report.append((rel, fn.name, "operation-object-store", ast.unparse(n.func)))
+        def is_mutable_literal(v):
+            return isinstance(v, (ast.List, ast.Dict, ast.Set, ast.ListComp, ast.DictComp, ast.SetComp)) or (
+                isinstance(v, ast.Call) and ast.unparse(v.func).split(".")[-1] in ("list", "dict", "set", "defaultdict", "OrderedDict", "Counter", "deque"))
+
+        def scan_class_attributes(c):
+            """a mutable object bound in the class body is ONE object for all instances: a store or mutating call through `self.<name>` writes shared state,
+            unless `__init__` rebinds the name per instance"""
+            shared = set()
+            for b in c.body:
+                if isinstance(b, (ast.Assign, ast.AnnAssign)) and getattr(b, "value", None) is not None and is_mutable_literal(b.value):
+                    for t in (b.targets if isinstance(b, ast.Assign) else [b.target]):
+                        if isinstance(t, ast.Name):
+                            shared.add(t.id)
+            for f in c.body:
+                if isinstance(f, ast.FunctionDef) and f.name == "__init__":
+                    for n in ast.walk(f):
+                        if isinstance(n, (ast.Assign, ast.AnnAssign)):
+                            for t in (n.targets if isinstance(n, ast.Assign) else [n.target]):
+                                if isinstance(t, ast.Attribute) and isinstance(t.value, ast.Name) and t.value.id == "self":
+                                    shared.discard(t.attr)
+            if not shared:
+                return
+            for f in c.body:
+                if not isinstance(f, ast.FunctionDef):
+                    continue
+                for n in ast.walk(f):
+                    tg = []
+                    if isinstance(n, ast.Assign): tg = n.targets
+                    elif isinstance(n, (ast.AugAssign, ast.AnnAssign)): tg = [n.target]
+                    elif isinstance(n, ast.Delete): tg = n.targets
+                    elif isinstance(n, ast.Call) and isinstance(n.func, ast.Attribute) and n.func.attr in MUTATORS: tg = [n.func.value]
+                    for t in tg:
+                        e = t
+                        while isinstance(e, ast.Subscript) or (isinstance(e, ast.Attribute) and not (isinstance(e.value, ast.Name) and e.value.id in ("self", "cls"))):
+                            e = e.value
+                        if isinstance(e, ast.Attribute) and e.attr in shared and (e is not t or isinstance(n, ast.Call)):
+                            report.append((rel, f.name, "store-to-class-attribute", ast.unparse(t)))
         for n in tree.body:
             if isinstance(n, ast.FunctionDef):
                 scan_function(n, None)
             elif isinstance(n, ast.ClassDef):
+                scan_class_attributes(n)
                 for f in n.body:
                     if isinstance(f, ast.FunctionDef):
                         scan_function(f, n.name)
